@@ -1,5 +1,5 @@
 (** Correspondence for C08/C09: the real filter machinery vs Filter/Machine.v. *)
-From Selene Require Export Corr.Common Filter.Machine Filter.Spec Filter.Comment Generated.LintTable.
+From Selene Require Export Corr.Common Filter.Machine Filter.Spec Filter.Comment Filter.Correct7 Generated.LintTable.
 
 Inductive case :=
 | CMachine (es : list fentry) (first_code : option (N * N)) (ds : list diag) (inv_sev : severity)
@@ -53,7 +53,7 @@ Definition check_case (c : case) : N * N :=
                   | _, _ => false
                   end in
       (* the specification evaluated on the implementation's own output *)
-      let wf := wf_filters (oks es) in
+      let wf := wf_ok fc (oks es) in
       let impl_diags := match impl with
                         | Some io => flat_map (fun o => match fst o with ODiag d => [d] | _ => [] end) io
                         | None => [] end in
@@ -77,7 +77,7 @@ Definition check_case (c : case) : N * N :=
       match collect lint_names evs with
       | None => (1%N, 0%N)
       | Some es =>
-          let wf := wf_filters (oks es) in
+          let wf := wf_ok fc (oks es) in
           (* the failures' severity is invalid_lint_filter's (error unless configured): take it from the output *)
           let corr := match filter_diagnostics es fc raw with
                       | Some mo => list_eqb (fun m i => out_eqb (snd i) m i) mo impl
